@@ -103,6 +103,125 @@ def gen_client_cases(ctx, n):
     return cases
 
 
+# ---------------------------------------------------------------- several exchanges on one connection
+def gen_exchange_cases(ctx, n):
+    """a case = list of connections; a connection = (phases, fin); a phase = the chunks that arrive while the request
+    of that exchange is in flight (one read-holding-registers per exchange; transaction ids count up over the whole
+    case). Bytes never get lost between exchanges: a reply that arrives only in part before its request times out is
+    completed during the next exchange, and the reply of that exchange still has to be found behind it."""
+    r = ctx.rng
+    reply = lambda tx, v: fc.mbap(tx, 1, bytes([3, 2, v >> 8, v & 255]))
+    cases = [
+        [([[reply(0, 7)[:9]], [reply(0, 7)[9:] + reply(1, 9)]], 'pending')],            # timeout mid-reply, then the late rest + the next reply
+        [([[reply(0, 7)[:3]], [reply(0, 7)[3:8]], [reply(0, 7)[8:], reply(2, 5)]], 'pending')],
+        [([[reply(0, 1)], [reply(1, 2)], [reply(2, 3)]], 'eof')],
+    ]
+    while len(cases) < n:
+        tx = 0
+        conns = []
+        for _ in range(r.choice([1, 1, 2])):
+            phases, carry, dead = [], b'', False
+            for _ in range(r.choice([2, 2, 3, 4])):
+                k = r.random()
+                body = carry
+                carry = b''
+                if k < 0.35:
+                    body += reply(tx, r.randrange(65536))
+                elif k < 0.6:                                      # only part of the reply makes it before the timeout
+                    f = reply(tx, r.randrange(65536))
+                    cut = r.randrange(1, len(f))
+                    body += f[:cut]
+                    carry = f[cut:]
+                elif k < 0.75:                                     # a stale frame first
+                    body += reply(r.choice([tx + 5, 65535]), 1) + reply(tx, r.randrange(65536))
+                elif k < 0.85:
+                    body += fc.mbap(tx, 1, bytes([0x83, r.choice([1, 2, 3, 4])]))
+                elif k < 0.93:
+                    pass                                           # nothing arrives
+                else:
+                    body += fc.mbap(tx, 1, b'', proto=r.randrange(1, 65536)) if r.random() < 0.5 else fc.mbap(tx, 1, b'', length=r.choice([0, 255]))
+                    dead = True
+                cuts = [r.randrange(1, max(2, len(body))) for _ in range(r.choice([0, 1, 2]))]
+                phases.append(fc.split_at(body, cuts))
+                tx += 1
+                if dead:
+                    break
+            conns.append((phases, r.choice(['pending', 'pending', 'eof', 'err'])))
+        cases.append(conns)
+    return cases
+
+
+def exch_line(case):
+    return ' / '.join(fin + ' ' + ' | '.join(' '.join(c.hex() for c in ph) for ph in phases) for phases, fin in case)
+
+
+def exch_coq(case):
+    return '[' + ';'.join('([%s], %s)' % (';'.join(vlib.coq_N_list(c) for ph in phases for c in ph), fc.FIN[fin]) for phases, fin in case) + ']'
+
+
+def expected_exchanges(case, spec_str):
+    """per connection and exchange: what the request must end as, from the frames the Spec cuts out of that
+    connection's stream and the exchange during which each of them becomes complete"""
+    out, tx = [], 0
+    for (phases, fin), conn in zip(case, spec_str.split(' / ')):
+        frames, pos, err_at = [], 0, None
+        for it in conn.split(' '):
+            if it.startswith('F('):
+                t, dest, bc, payload = it[2:-1].split(',')
+                pos += 7 + len(payload) // 2
+                frames.append((int(t), bytes.fromhex(payload), pos))
+            elif it.startswith('BadFrame'):
+                err_at = pos + 7
+        res, lo, dead = [], 0, False
+        for j, ph in enumerate(phases):
+            hi = lo + sum(len(c) for c in ph)
+            if dead:
+                res.append('NotRun')
+                continue
+            r = None
+            here = [f for f in frames if lo < f[2] <= hi]
+            for idx, (t, p, _) in enumerate(here):
+                if t == tx:
+                    r = ('Ok(%d)' % (p[2] * 256 + p[3]) if len(p) == 4 and p[0] == 3 and p[1] == 2 else
+                         'Exception(%d)' % p[1] if len(p) == 2 and p[0] == 0x83 else 'BadResponse')
+                    if idx + 1 < len(here):
+                        return None                       # a complete frame behind the reply: who reads it is a race, not judged
+                    break
+            if r is None:
+                if err_at is not None and lo < err_at <= hi:
+                    r, dead = 'BadFrame', True
+                elif j + 1 == len(phases) and fin != 'pending':
+                    r, dead = 'Io', True
+                else:
+                    r = 'Timeout'
+            res.append(r)
+            tx += 1
+            lo = hi
+        out.append(','.join(res))
+    return ' / '.join(out)
+
+
+def run_exchanges(ctx, cases):
+    impl = ctx.harness('client_conns', [exch_line(c) for c in cases], shards=8)
+    both = ctx.coq_eval(fc.REQUIRES, 'eval_client', [exch_coq(c) for c in cases], case_type='list (list (list N) * fin)', per_shard=100)
+    bad = skipped = 0
+    for c, i, b in zip(cases, impl, both):
+        spec = b.partition('|')[2]
+        want = expected_exchanges(c, spec)
+        if want is None:
+            skipped += 1
+            continue
+        if i != want:
+            bad += 1
+            if bad == 1:
+                ctx.violation('client.exchange-results-differ-from-spec',
+                              f'client, several exchanges on one connection `{exch_line(c)[:220]}`: request results {i}; the connection\'s stream, cut by the length '
+                              f'fields only, prescribes {want} (frames: {spec[:160]}) - bytes received during an earlier exchange lost or re-read?',
+                              {'cases': [{'exchanges': [[[[x.hex() for x in ph] for ph in phases], fin] for phases, fin in c]}], 'impl': i, 'expected': want,
+                               'spec_frames': spec, 'harness_line': 'client_conns: ' + exch_line(c)})
+    return bad, skipped, impl
+
+
 def client_line(conns):
     return ' / '.join(' '.join([fin] + [c.hex() for c in chunks]) for chunks, fin in conns)
 
@@ -181,7 +300,7 @@ def run_client(ctx, cases):
 
 
 def run(ctx):
-    ctx.translate(['Consts.v', 'RtuLengths.v'])
+    ctx.translate(['Consts.v', 'RtuLengths.v', 'ParserShape.v'])
     models_ok = ctx.build_models(['Base.Show', 'Base.Frame', 'Model.Reader', 'Spec.Framing', 'Model.FramingEval'])
     ctx.prove()
     if ctx.tier == 'thorough':
@@ -190,10 +309,12 @@ def run(ctx):
         return
     client_cases = None
     server_replay = None
+    exchange_cases = None
     if ctx.replay and 'cases' in ctx.replay:
         cs = ctx.replay['cases']
         client_cases = [[([bytes.fromhex(x) for x in ch], fin) for ch, fin in c['client']] for c in cs if isinstance(c, dict) and 'client' in c]
         server_replay = [fc.case_from_json(c['server']) for c in cs if isinstance(c, dict) and 'server' in c]
+        exchange_cases = [[([[bytes.fromhex(x) for x in ph] for ph in phases], fin) for phases, fin in c['exchanges']] for c in cs if isinstance(c, dict) and 'exchanges' in c]
         cases = [fc.case_from_json(c) for c in cs if not isinstance(c, dict)]
         tags = [(set(), 'replay')] * len(cases)
     else:
@@ -221,6 +342,12 @@ def run(ctx):
             loud = ctx.harness('client_conns', [client_line(c) for c in client_cases[:100]], args=['--decode', 'max'], shards=4)
             diff = [k for k, (a, b) in enumerate(zip(loud, client_impl[:100])) if a != b]
             ctx.oblige('decode-level-does-not-change-client-results', not diff, f'{len(diff)} of {len(loud)} differ' + (f'; first: {client_line(client_cases[diff[0]])[:160]}' if diff else ''))
+    # client role, several exchanges on one connection (timeouts in between): nothing received is lost or re-read
+    if exchange_cases is None:
+        exchange_cases = gen_exchange_cases(ctx, 300 if ctx.quick() else 3000)
+    bad_x, skipped_x, exch_impl = run_exchanges(ctx, exchange_cases) if exchange_cases else (0, 0, [])
+    if exchange_cases:
+        ctx.oblige('correspondence:client-exchanges-on-one-connection', bad_x == 0, f'{bad_x} mismatches over {len(exchange_cases)} histories ({skipped_x} not judged)')
     # server role: the production SessionTask over the same streams; the session must end as the Spec says and
     # everything it does (handler calls, replies) must be the same for every chunking of the same stream
     n_srv = 0
@@ -276,6 +403,10 @@ def run(ctx):
             bump('stream:longer_than_buffer')
         if any(len(x) == 1 for x in c[3]):
             bump('schedule:has_1_byte_read')
+    for c, i in zip(exchange_cases, exch_impl):
+        if 'Timeout,Ok' in i:
+            bump('client:ok_after_timeout_on_same_connection')
+        bump('client:exchanges=%d' % min(4, sum(len(ph) for ph, _ in c)))
     for conns, i in zip(client_cases, client_impl):
         bump('client:connections=%d' % len(conns))
         if len(conns) > 1 and conns[0][1] != 'pending' and 0 < sum(len(x) for x in conns[0][0]) and 'Ok' in i.split(' / ')[-1]:
@@ -283,12 +414,12 @@ def run(ctx):
     if not ctx.replay:
         need = ['ending:UnknownProtocolId', 'ending:FrameLengthTooBig', 'ending:MbapLengthZero', 'ending:Io(UnexpectedEof)', 'ending:Pending',
                 'buffer:compacted', 'buffer:full_with_14_consumed', 'buffer:reset_when_empty', 'schedule:byte_per_byte', 'schedule:buffer_edge', 'stream:longer_than_buffer',
-                'client:ok_after_dead_connection', 'mode:resume', 'mode:cancel', 'cancel:abandoned_mid_frame']
+                'client:ok_after_dead_connection', 'client:ok_after_timeout_on_same_connection', 'mode:resume', 'mode:cancel', 'cancel:abandoned_mid_frame']
         missing = [k for k in need if classes.get(k, 0) < 3]
         ctx.oblige('generator-reaches-expected-classes', not missing, 'missing: ' + ','.join(missing))
     nontrivial = set(fc.to_line(c) for c, (impl, _, _, _) in zip(cases, results) if len(c[3]) >= 2 and 'F(' in impl)
     ctx.coverage.update({
-        'evaluations': len(cases) + len(client_cases) + n_srv,
+        'evaluations': len(cases) + len(client_cases) + len(exchange_cases) + n_srv,
         'distinct_nontrivial': len(nontrivial) + len(set(client_line(c) for c in client_cases if len(c) > 1)),
         'rule': 'reader cases (framing, stop/resume, ending, chunk list) from a seeded PRNG: directed list first, then concatenations of valid/invalid MBAP frames '
                 'x schedules (all-at-once, byte-per-byte, boundary splits, fixed/random sizes, buffer-edge); non-trivial = at least two reads and at least one frame delivered; '
